@@ -10,6 +10,20 @@ COMMON_NOTE = ("Trusted: Lean 4.33.0 kernel; axioms propext/Classical.choice/Quo
                "X: exact integers on the dyadic grid) and by an independent Python oracle of the property; harness/ and CPython. ")
 
 CLAIMS = {
+ "C07": dict(
+   text="Theorems over unbounded Int timestamps / any list length about the code-shaped model (lax-crop match list, tolerant "
+        "deleteEntry in reverse order, re-insertion of the two remnants through insertEntry, shrink loop, re-join): a>=b is "
+        "rejected; 'error' raises CollisionError iff something overlaps; without shrinking the result is well-formed, keeps "
+        "name/span and its entries are exactly the outside pieces of the original entries (truncate) or the non-overlapping "
+        "entries (categorical); label-at-time is none on [a,b) and unchanged elsewhere; with shrinking the span end decreases "
+        "by exactly b-a, every later time sees the tier b-a later, and a straddling interval comes out as the single interval "
+        "<s, e-(b-a), l>. Layer R: the repaired shift a+(x-b) maps b onto a exactly and is monotone under any monotone "
+        "rounding, so it cannot create overlaps. Tied to the code by bit-exact differential runs (exhaustive grid family + decimals).",
+   ref="DESIGN §4 C07",
+   note="Hypothesis NoClose (no two distinct entries equal under Interval.__eq__'s 1e-9 tolerance) is explicit in the theorems. "
+        "The universal floating-point clause is not a theorem: it is carried by layer R (hypotheses = monotone rounding laws) "
+        "and by the oracle/correspondence on decimal inputs. PointTier.eraseRegion and Textgrid.eraseRegion are checked by "
+        "correspondence + oracle (rejection of a>=b is proved for both tier kinds)."),
  "C06": dict(
    text="Theorems over unbounded Int timestamps and entry lists of any length: the five-arm window/interval cascade equals "
         "interval arithmetic in every mode; crop of a well-formed tier never fails for a<b, returns exactly the per-mode selection, "
